@@ -91,8 +91,21 @@ def replay_case(case, tag, rng, tier):
     num = rng.choice(("float", "int"))
     for which, (x, y) in (("base", (a, b)), ("t", (case["ta"], case["tb"]))):
         # bodies are presented with seeded face orders / orientations and vertex orders (a property of the input, not of the set)
-        la, e1 = call((lambda o: represent(o, pose, num, rng)) if rng.random() < 0.5 else (lambda o: build(o, pose, num)), x)
-        lb, e2 = call((lambda o: represent(o, pose, num, rng)) if rng.random() < 0.5 else (lambda o: build(o, pose, num)), y)
+        bpose = pose
+        by_moves = which == "t" and any(T["t"]) and a["k"] != "Vector" and rng.random() < 0.3
+        if by_moves:
+            # the translation part of T applied by the library itself, in two in-place steps, to operands built at the untranslated place
+            shift = [Fr(c, s) for c in T["t"]]
+            bpose = Pose(s=s, t=tuple(-c for c in shift))
+        la, e1 = call((lambda o: represent(o, bpose, num, rng)) if rng.random() < 0.5 else (lambda o: build(o, bpose, num)), x)
+        lb, e2 = call((lambda o: represent(o, bpose, num, rng)) if rng.random() < 0.5 else (lambda o: build(o, bpose, num)), y)
+        if by_moves and e1 is None and e2 is None:
+            from geom import Vector, convs
+            t1 = [Fr(1, s), Fr(0), Fr(-1, s)]
+            for lo in (la, lb):
+                _, ex = call(lo.move, Vector(*convs(t1, num)))
+                _, ex2 = call(lo.move, Vector(*convs([c - d for c, d in zip(shift, t1)], num)))
+                e1 = e1 or ex or ex2
         if e1 is not None or e2 is not None:
             bad("C13.construct", "%s side could not be constructed" % which, e1 or e2, which)
             continue
